@@ -588,6 +588,14 @@ Theorem C02_torus_tr_linked : forall (x0 y0 z0 A B C : R) (o : S4.R3) (b : V4.M3
        forall p', S4.t4val t (S4.to_main o b p') = fM_tz RS x0 y0 z0 A B C (pt3 p')).
 Proof. exact torus_tr_linked. Qed.
 
+(* tori with ANY orthonormal TR (C04's total torus law), the numpy.allclose snap
+   zone included: one torus is always written, about an axis a' equal to the
+   moved axis or (snap) a coordinate axis with |a' x moved axis|^2 <= 2e-16;
+   exact when a' is the moved axis *)
+Theorem C02_torus_tr_total_linked :
+  ltac:(let t := type of torus_tr_total_linked in exact t).
+Proof. exact torus_tr_total_linked. Qed.
+
 (* the frame form that C04 starts from has the sense of the card (the bridge
    used above; link_wf = what C04's laws ask of it) *)
 Theorem C02_frame_form_sense_linked : forall (mn : mnem) (prm : list R) (ms : msurf (T:=R)),
@@ -788,7 +796,7 @@ Proof. exact (conj C02_spec_sanity C02_sense_value_sign). Qed.
 Print Assumptions C02_family_spec.
 
 Theorem C02_family_linked :
-  ltac:(let t := type of (conj C02_text_every_card_locus_sense_linked (conj C02_text_every_card_all_mnemonics_linked (conj C02_torus_tr_linked (conj C02_frame_form_sense_linked (conj C02_text_every_card_tr_card_linked (conj C02_text_body_linked (conj C02_text_rpp_sph_rcc_linked C02_text_every_card_incl_bodies_linked))))))) in exact t).
-Proof. exact (conj C02_text_every_card_locus_sense_linked (conj C02_text_every_card_all_mnemonics_linked (conj C02_torus_tr_linked (conj C02_frame_form_sense_linked (conj C02_text_every_card_tr_card_linked (conj C02_text_body_linked (conj C02_text_rpp_sph_rcc_linked C02_text_every_card_incl_bodies_linked))))))). Qed.
+  ltac:(let t := type of (conj C02_text_every_card_locus_sense_linked (conj C02_text_every_card_all_mnemonics_linked (conj C02_torus_tr_linked (conj C02_torus_tr_total_linked (conj C02_frame_form_sense_linked (conj C02_text_every_card_tr_card_linked (conj C02_text_body_linked (conj C02_text_rpp_sph_rcc_linked C02_text_every_card_incl_bodies_linked)))))))) in exact t).
+Proof. exact (conj C02_text_every_card_locus_sense_linked (conj C02_text_every_card_all_mnemonics_linked (conj C02_torus_tr_linked (conj C02_torus_tr_total_linked (conj C02_frame_form_sense_linked (conj C02_text_every_card_tr_card_linked (conj C02_text_body_linked (conj C02_text_rpp_sph_rcc_linked C02_text_every_card_incl_bodies_linked)))))))). Qed.
 Print Assumptions C02_family_linked.
 
